@@ -8,7 +8,7 @@
 (* performs inside one callback (loop header evaluation, binding and unbinding the loop        *)
 (* variable) are silent steps, enabled only in those sub-states.  One verdict line per case:   *)
 (* the machine's outcome (the oracle) and where, if anywhere, the trace left the machine.      *)
-EXTENDS BBDenote, Json, IOUtils
+EXTENDS BBSerialize, Json, IOUtils
 Cases == JsonDeserialize(IOEnv.CASE_FILE)
 AllFiles == LET RECURSIVE F(_) F(i) == IF i > Len(Cases) THEN <<>> ELSE Cases[i].files \o F(i + 1) IN F(1)
 TraceFS(f) == IF \E i \in 1..Len(AllFiles) : AllFiles[i].path = f
@@ -63,7 +63,10 @@ Free == (~HasTrace \/ bad # "") /\ Running /\ ~InLoopSub /\ S' = Step(S) /\ UNCH
 Next == Silent \/ Consume \/ Free
 Done == ~Running /\ (~HasTrace \/ bad # "" \/ l > Len(Ev))
 TraceVerdict == IF ~HasTrace THEN "none" ELSE IF bad # "" THEN bad ELSE "accepted"
-Emit == Done => PrintT(<<"ORACLE", ToJson([k |-> k, out |-> S.res, trace |-> TraceVerdict, at |-> l - 1])>>)
+\* for round-trip checks on harness-supplied scripts: is the program within C01's scope (every parameter occurs in an operation,
+\* no array argument still contains a parameter)?
+InScope == S.res.k = "ok" /\ AllParamsUsed(S.res.prog) /\ ~HasSymArray(S.res.prog)
+Emit == Done => PrintT(<<"ORACLE", ToJson([k |-> k, out |-> S.res, trace |-> TraceVerdict, at |-> l - 1, inscope |-> InScope])>>)
 \* mechanism invariants evaluated on every step of every real trace
 LoopVarScoped == (Running /\ Len(S.st) = 1 /\ CurA \in {"stmt", "exprvar", "arrayvar", "enterFor", "exitProgram"} /\ Top(S).loop = None)
                    => \A i \in 1..Len(Cases[k].s.body) : Cases[k].s.body[i].t = "for" =>
